@@ -24,6 +24,32 @@ func VfBuild(prefix string, nNH, nNHG, nTop, members int, kinds []int, rich bool
 	return &VfWorld{R: r, ref: ref}
 }
 
+// VfBuildSplit: cross-instance references with a small concrete skeleton - next-hop 1 in each of the two
+// instances, an optional group (symbolic id, member 1) in each instance, and one optional IPv4 entry (symbolic
+// prefix and group id) in either instance whose group instance is unset (= its own instance) or explicit.
+func VfBuildSplit(prefix string) *VfWorld {
+	r, ref := vfNewPair(true)
+	g := &vfGen{pfx: prefix}
+	must := func(d *vfOpD) { vfAssume(vfSubmit(r, ref, d) == vfStAcked) }
+	for _, ni := range []string{"DEFAULT", "VRF-A"} {
+		must(&vfOpD{id: g.id(), typ: vfADD, kind: vfKNH, ni: ni, idx: 1, hasBody: true})
+	}
+	for _, ni := range []string{"DEFAULT", "VRF-A"} {
+		if vfBool(prefix + "nhg.live") {
+			must(&vfOpD{id: g.id(), typ: vfADD, kind: vfKNHG, ni: ni, idx: vfU64(prefix + "nhg.id"), hasBody: true, members: []vfMember{{idx: 1}}})
+		}
+	}
+	if vfBool(prefix + "top.live") {
+		d := &vfOpD{id: g.id(), typ: vfADD, kind: vfKV4, ni: vfKnownNI(prefix + "top"), pfx: vfStrK(prefix+"top.pfx", "prefix4"), hasBody: true,
+			hasNHG: true, nhg: vfU64(prefix + "top.nhg")}
+		if vfBool(prefix + "top.hasNHGNI") {
+			d.hasNHGNI, d.nhgNI = true, vfKnownNI(prefix+"top.nhgNI")
+		}
+		must(d)
+	}
+	return &VfWorld{R: r, ref: ref}
+}
+
 // VfKinds: IPv4, IPv6, MPLS top-level kinds.
 func VfKinds(v4, v6, mpls bool) []int {
 	var k []int
@@ -37,6 +63,28 @@ func VfKinds(v4, v6, mpls bool) []int {
 		k = append(k, vfKMPLS)
 	}
 	return k
+}
+
+// VfLockProbe: after the operations under test no lock of the RIB may be left held (an operation that
+// returned while holding a table lock wedges the instance for every later writer).  The probe takes and
+// releases every lock: in the engine a leaked lock makes it block forever (deadlock outcome), natively the
+// replay's watchdog fires.
+func (r *RIB) VfLockProbe() {
+	r.nrMu.Lock()
+	r.nrMu.Unlock()
+	r.pendMu.Lock()
+	r.pendMu.Unlock()
+	for _, name := range []string{"DEFAULT", "VRF-A"} {
+		if h := r.niRIB[name]; h != nil {
+			h.mu.Lock()
+			h.mu.Unlock()
+			if h.refCounts != nil {
+				h.refCounts.mu.Lock()
+				h.refCounts.mu.Unlock()
+			}
+		}
+	}
+	vfReach("locks-free")
 }
 
 // Apply sends one operation to the real RIB and reports whether it was acknowledged as programmed.
